@@ -258,6 +258,7 @@ fn pcs(ctx: &mut Ctx) -> u64 {
 }
 
 pub fn run(ctx: &mut Ctx) {
+    if std::env::var("FV_DEBUG").is_ok() { std::panic::set_hook(Box::new(|i| eprintln!("panic: {i}"))); }
     let mut vm = new_vm();
     let names: Vec<&'static str> = ALU.to_vec();
     // 0. regression corpus: boundary cases
@@ -334,6 +335,49 @@ pub fn run(ctx: &mut Ctx) {
             let (d_, f_) = (16 + ctx.rng.below(48) as usize, ctx.rng.below(4)); let cs = mk(ctx, "MROO", d_, (a, c, 0), 0, f_, 8);
             run_case(ctx, &mut vm, &cs);
         }
+    }
+    // 3b. deterministic MROO sweep (quick tier too): exact perfect powers r^c and r^c ± 1 for every degree c in 2..=64
+    //     with small r, the largest r whose power fits, and powers of two — the places where the f64 seed of
+    //     checked_nth_root is inexact (e.g. 64^(1/3), (10^18)^(1/9), (2^63)^(1/7)); the oracle checks r^c <= a < (r+1)^c
+    let mut named: Vec<(u64, u64)> = vec![(64, 3), (1_000_000_000_000_000_000, 9), (1 << 63, 7), (1 << 62, 2), (1 << 60, 3), (1 << 60, 4), (1 << 60, 5), (1 << 60, 6),
+        (1 << 60, 10), (1 << 60, 12), (1 << 60, 15), (1 << 60, 20), (1 << 60, 30), (1 << 60, 60), (1 << 63, 3), (1 << 63, 9), (1 << 63, 21), (1 << 63, 63), (1 << 48, 3), (1 << 48, 6),
+        (125, 3), (1000, 3), (1_000_000, 3), (1_000_000_000_000_000_000, 3), (1_000_000_000_000_000_000, 6), (1_000_000_000_000_000_000, 18), (3486784401, 20), (12157665459056928801, 40),
+        (4052555153018976267, 39), (10000000000000000000, 19), (7450580596923828125, 27), (u64::MAX, 2), (u64::MAX, 3), (18446744065119617025, 2), (18446724184312856125, 3)];
+    for c in 2u64..=64 {
+        let hi = max_root(c);
+        let mut rs: Vec<u64> = vec![2, 3, 4, 5, 6, 7, 8, 9, 10, 16, 100, 1000, 65536, hi, hi.saturating_sub(1), hi / 2 + 1];
+        let mut k = 1u64; while k < 64 / c + 1 { rs.push(1 << k); k += 1; }
+        for r in rs { if r >= 2 && r <= hi { if let Some(p) = pow_fits(r, c, 64) { named.push((p, c)); } } }
+    }
+    for (i, (p, c)) in named.iter().enumerate() {
+        for a in [*p, p.wrapping_sub(1), p.wrapping_add(1)] {
+            let cs = mk(ctx, "MROO", 16 + (i % 48), (a, *c, 0), 0, (i % 4) as u64, 8);
+            run_case(ctx, &mut vm, &cs);
+        }
+    }
+    ctx.count_n("mroo.perfect-power-sweep", 3 * named.len() as u64);
+    // 3c. results exactly at the u64 boundary for the overflow-capturing instructions (2^64-1 fits, 2^64 does not)
+    for _ in 0..ctx.n(150, 3000) {
+        let x = ctx.rng.word();
+        let d = ctx.rng.below(3);            // sum / product lands on u64::MAX - 1 + d
+        let imm = ctx.rng.below(4096) as u32;
+        let flag = ctx.rng.below(4);
+        let dst = 16 + ctx.rng.below(48) as usize;
+        let tgt: u128 = u64::MAX as u128 - 1 + d as u128;
+        let cs = mk(ctx, "ADD", dst, (x, tgt.saturating_sub(x as u128).min(u64::MAX as u128) as u64, 0), 0, flag, 8); run_case(ctx, &mut vm, &cs);
+        let cs = mk(ctx, "ADDI", dst, (tgt.saturating_sub(imm as u128).min(u64::MAX as u128) as u64, 0, 0), imm, flag, 8); run_case(ctx, &mut vm, &cs);
+        let cs = mk(ctx, "SUB", dst, (x, x.wrapping_add(d).wrapping_sub(1), 0), 0, flag, 8); run_case(ctx, &mut vm, &cs);
+        let cs = mk(ctx, "SUBI", dst, ((imm.max(1) as u64 + d).saturating_sub(1), 0, 0), imm.max(1), flag, 8); run_case(ctx, &mut vm, &cs);
+        // products: divisors of 2^64 - 1 = 3·5·17·257·641·65537·6700417, and powers of two for 2^64
+        let f = *ctx.rng.pick(&[3u64, 5, 15, 17, 255, 257, 641, 65535, 65537, 4294967295, 6700417, 1, u64::MAX]);
+        let cs = mk(ctx, "MUL", dst, (f, u64::MAX / f, 0), 0, flag, 8); run_case(ctx, &mut vm, &cs);
+        let k = ctx.rng.below(65);
+        let cs = mk(ctx, "MUL", dst, (1u64.checked_shl(k as u32).unwrap_or(0), 1u64.checked_shl(64 - k as u32).unwrap_or(0), 0), 0, flag, 8); run_case(ctx, &mut vm, &cs);
+        let fi = *ctx.rng.pick(&[3u32, 5, 15, 17, 51, 85, 255, 257, 771, 1285, 3855, 1]);
+        let mb = (u64::MAX / fi as u64).saturating_add(ctx.rng.below(2)); let cs = mk(ctx, "MULI", dst, (mb, 0, 0), fi, flag, 8); run_case(ctx, &mut vm, &cs);
+        // MLDV: quotient exactly 2^64 - 1 / 2^64
+        let cs = mk(ctx, "MLDV", dst, (u64::MAX, x.max(1), x.max(1)), 0, flag, 8); run_case(ctx, &mut vm, &cs);
+        let cs = mk(ctx, "MLDV", dst, (1 << 63, 2 * x.max(1).min(u64::MAX / 2), x.max(1).min(u64::MAX / 2)), 0, flag, 8); run_case(ctx, &mut vm, &cs);
     }
     // 4. targeted: MLDV with quotients around 2^64
     for _ in 0..ctx.n(1500, 30_000) {
